@@ -70,7 +70,10 @@ class Translator:
         self.exe = exe
         self.env = dict(os.environ)
         # leaks of the translator are not this property's subject
-        self.env["ASAN_OPTIONS"] = "detect_leaks=0:abort_on_error=0:exitcode=97:allocator_may_return_null=1"
+        # (no allocation stack traces, small quarantine, no release of freed pages: the parser makes very many
+        #  small allocations; invalid accesses are still detected and stop the driver)
+        self.env["ASAN_OPTIONS"] = ("detect_leaks=0:abort_on_error=0:exitcode=97:allocator_may_return_null=1:"
+                                    "malloc_context_size=0:quarantine_size_mb=8:allocator_release_to_os_interval_ms=-1")
 
     def _run(self, lines):
         p = subprocess.run([self.exe], input="\n".join(lines) + "\n", env=self.env, text=True,
@@ -234,25 +237,42 @@ class Harness:
 
     def __init__(self, workdir):
         self.workdir = workdir
-        self.funcs = []      # (name, body)
-        self.raw = []        # raw top-level source (translated kernels)
+        self.funcs = []      # (name, body, owner)
+        self.raw = []        # (raw top-level source (translated kernels), owner)
         self.exe = None
+        self.bad = set()     # owners (case indices) whose code does not compile; they are left out
+        self.error = ""
+
+    @staticmethod
+    def owner_of(name):
+        m = re.match(r"^[a-z]+(\d+)", name)
+        return int(m.group(1)) if m else None
 
     def add(self, name, body):
-        self.funcs.append((name, body))
+        self.funcs.append((name, body, self.owner_of(name)))
 
-    def add_raw(self, src):
-        self.raw.append(src)
+    def add_raw(self, src, owner=None):
+        self.raw.append((src, owner))
 
-    def build(self):
-        src = [HARNESS_HEAD]
-        src += self.raw
-        for name, body in self.funcs:
-            src.append("static void %s(int N, int M, int P, int Q, const u64 *d, Out &out) {\n%s\n}\n" % (name, body))
-        src.append("static const Entry table[] = {\n" + "".join('  {"%s", %s},\n' % (n, n) for n, _ in self.funcs)
-                   + "  {NULL, NULL}\n};\n")
-        src.append(HARNESS_MAIN)
-        text = "\n".join(src)
+    def _compile(self):
+        pieces = [(None, HARNESS_HEAD)]
+        pieces += [(o, r) for r, o in self.raw if o not in self.bad]
+        funcs = [(n, b, o) for n, b, o in self.funcs if o not in self.bad]
+        for name, body, o in funcs:
+            pieces.append((o, "static void %s(int N, int M, int P, int Q, const u64 *d, Out &out) {\n%s\n}\n" % (name, body)))
+        pieces.append((None, "static const Entry table[] = {\n" + "".join('  {"%s", %s},\n' % (n, n) for n, _, _ in funcs)
+                       + "  {NULL, NULL}\n};\n"))
+        pieces.append((None, HARNESS_MAIN))
+        text = ""
+        spans = []           # (first line, last line, owner)
+        line = 1
+        for o, t in pieces:
+            if not t.endswith("\n"):
+                t += "\n"
+            n = t.count("\n")
+            spans.append((line, line + n - 1, o))
+            line += n
+            text += t
         h = hashlib.sha1(text.encode()).hexdigest()[:12]
         cpp = os.path.join(self.workdir, "h_%s.cpp" % h)
         exe = os.path.join(self.workdir, "h_%s" % h)
@@ -260,11 +280,29 @@ class Harness:
         cmd = ["g++", "-std=c++17", "-O0", "-w", "-fopenmp", "-fsanitize=undefined,float-divide-by-zero",
                "-fno-sanitize-recover=all", cpp, "-o", exe]
         p = subprocess.run(cmd, stdout=subprocess.PIPE, stderr=subprocess.PIPE, text=True)
-        if p.returncode != 0:
-            self.error = p.stderr[-3000:]
-            return False
-        self.exe = exe
-        return True
+        if p.returncode == 0:
+            self.exe = exe
+            return True, set()
+        self.error = p.stderr[-3000:]
+        owners = set()
+        for m in re.finditer(r"\.cpp:(\d+):\d+: error", p.stderr):
+            ln = int(m.group(1))
+            for a, b, o in spans:
+                if a <= ln <= b and o is not None:
+                    owners.add(o)
+        return False, owners
+
+    def build(self):
+        """compile; code of a case that does not compile is left out (self.bad) so that it cannot take the other
+        cases of the batch with it"""
+        for _ in range(6):
+            ok, owners = self._compile()
+            if ok:
+                return True
+            if not owners:
+                return False
+            self.bad |= owners
+        return False
 
     def run(self, reqs):
         """reqs: list of (name, (N,M,P,Q), dims or None) -> list of result strings"""
@@ -348,6 +386,14 @@ def parse_case(line):
     if not (1 <= no <= 3 and 1 <= ni <= 3):
         raise Malformed("nest")
     rest = t[3:]
+    fork = 0
+    if rest[:1] == ["fork"]:
+        try:
+            fork = int(rest[1])
+        except (ValueError, IndexError):
+            raise Malformed("fork")
+        if not (1 <= fork <= no + ni - 1):
+            raise Malformed("fork")
     head = rest[: rest.index("loop")] if "loop" in rest else rest
     envs = []
     for e in split_kw(head, "env"):
@@ -383,7 +429,7 @@ def parse_case(line):
     for k, l in enumerate(loops):
         l["kind"] = "o" if k < no else "i"
         l["name"] = NAMES[l["kind"]][k if k < no else k - no]
-    return no, ni, envs, loops
+    return no, ni, envs, loops, fork
 
 
 def header_text(l):
@@ -394,22 +440,47 @@ def header_text(l):
     return "int %s = %s; %s; %s" % (it, l["init"], cond, upd)
 
 
-def okl_source(kname, loops):
-    names = [l["name"] for l in loops]
+def chains(loops, fork):
+    """-> (common prefix, [chain, ...]): with a fork the loops fork.. appear twice (second copy: iterators x<name>)"""
+    if not fork:
+        return loops, [[]]
+    second = []
+    for l in loops[fork:]:
+        c = dict(l)
+        c["name"] = "x" + l["name"]
+        second.append(c)
+    return loops[:fork], [loops[fork:], second]
+
+
+def okl_source(kname, loops, fork=0):
+    prefix, chs = chains(loops, fork)
+    width = len(loops) + (1 if fork else 0)
     lines = ["@kernel void %s(const int N, const int M, const int P, const int Q, int *h) {" % kname]
-    ind = "  "
-    for l in loops:
-        lines.append("%sfor (%s; @%s) {" % (ind, header_text(l), "outer" if l["kind"] == "o" else "inner"))
-        ind += "  "
-    lines.append("%sint p = h[0];" % ind)
-    lines.append("%sh[0] = p + 1;" % ind)
-    lines.append("%sif (p < %d) {" % (ind, LIMIT))
-    for j, n in enumerate(names):
-        lines.append("%s  h[1 + %d * p + %d] = %s;" % (ind, len(names), j, n))
-    lines.append("%s}" % ind)
-    for l in loops:
-        ind = ind[:-2]
-        lines.append("%s}" % ind)
+
+    def open_loops(ls, ind):
+        for l in ls:
+            lines.append("%sfor (%s; @%s) {" % (ind, header_text(l), "outer" if l["kind"] == "o" else "inner"))
+            ind += "  "
+        return ind
+
+    def close_loops(ls, ind):
+        for l in ls:
+            ind = ind[:-2]
+            lines.append("%s}" % ind)
+        return ind
+    ind = open_loops(prefix, "  ")
+    for tagv, ch in enumerate(chs):
+        ind2 = open_loops(ch, ind)
+        names = [l["name"] for l in prefix + ch]
+        vals = ([str(tagv)] if fork else []) + names
+        lines.append("%sint p = h[0];" % ind2)
+        lines.append("%sh[0] = p + 1;" % ind2)
+        lines.append("%sif (p < %d) {" % (ind2, LIMIT))
+        for j, v in enumerate(vals):
+            lines.append("%s  h[1 + %d * p + %d] = %s;" % (ind2, width, j, v))
+        lines.append("%s}" % ind2)
+        close_loops(ch, ind2)
+    close_loops(prefix, ind)
     lines.append("}")
     return "\n".join(lines) + "\n"
 
@@ -458,10 +529,14 @@ def gpu_texts(launcher, device, itnames):
         if s[0] == "dim":
             var = s[4]
             recs.append("%s %s%d count= %s decl= %s" % (var, s[1], s[2], s[3], ddm.get(var, "?MISSING")))
+    seen = set(s[4] for s in st if s[0] == "dim")
+    for var, txt in dd:
+        if var not in seen:
+            recs.append("%s decl= %s" % (var, txt))
     return " ; ".join(recs), st, dd
 
 
-def gpu_functions(h, fname, st, dd, itnames):
+def gpu_functions(h, fname, st, dd, itnames, branches=None):
     """harness functions for one set of emitted texts:
          <fname>_c : evaluates the launcher statements, emits the six dims (as one tuple)
          <fname>_t : given dims, enumerates thread index vectors and emits the iterator tuples"""
@@ -485,7 +560,12 @@ def gpu_functions(h, fname, st, dd, itnames):
         ind += "  "
     for var, txt in dd:
         body.append("%sint %s = %s;" % (ind, var, c_text(txt)))
-    body.append("%sout.emit({%s});" % (ind, ", ".join("(long long) " + v for v in itnames if v in dict(dd))))
+    if branches is None:
+        body.append("%sout.emit({%s});" % (ind, ", ".join("(long long) " + v for v in itnames if v in dict(dd))))
+    else:
+        # sibling chains: every thread runs the body of each chain once
+        for tagv, names in enumerate(branches):
+            body.append("%sout.emit({%d, %s});" % (ind, tagv, ", ".join("(long long) " + v for v in names)))
     body.append("%sif (out.huge) return;" % ind)
     for _ in range(6):
         ind = ind[:-2]
@@ -496,7 +576,7 @@ def gpu_functions(h, fname, st, dd, itnames):
 def cpu_function(h, fname, src, kname, nloops):
     """the Serial / OpenMP translation compiled as it is, under the name <fname>_k"""
     src = re.sub(r"\b%s\b" % re.escape(kname), fname + "_k", src)
-    h.add_raw(src)
+    h.add_raw(src, Harness.owner_of(fname))
     body = ["  std::vector<int> hbuf(1 + %d * LIMIT + 8, 0);" % nloops,
             "  %s_k(N, M, P, Q, hbuf.data());" % fname,
             "  (void) d;",
@@ -531,9 +611,9 @@ def process(lines, driver_exe, workdir):
     for idx, line in enumerate(lines):
         c = dict(idx=idx, line=line)
         try:
-            no, ni, envs, loops = parse_case(line)
-            c.update(no=no, ni=ni, envs=envs, loops=loops, kname="k%d" % idx)
-            c["src"] = okl_source(c["kname"], loops)
+            no, ni, envs, loops, fork = parse_case(line)
+            c.update(no=no, ni=ni, envs=envs, loops=loops, fork=fork, kname="k%d" % idx)
+            c["src"] = okl_source(c["kname"], loops, fork)
             c["job0"] = len(jobs)
             for m in CPU:
                 jobs.append((m, 0, c["src"]))
@@ -560,7 +640,11 @@ def process(lines, driver_exe, workdir):
         c["any_bad"] = any(x == "ERR" or x.startswith("CRASH") for x in flat)
         if c["any_bad"]:
             continue
-        itnames = [l["name"] for l in c["loops"]]
+        prefix, chs = chains(c["loops"], c["fork"])
+        allloops = prefix + [l for ch in chs for l in ch]
+        itnames = [l["name"] for l in allloops]
+        branches = [[l["name"] for l in prefix + ch] for ch in chs] if c["fork"] else None
+        width = len(c["loops"]) + (1 if c["fork"] else 0)
         # texts per GPU mode, grouped
         c["groups"] = {}     # records text -> (group id, [modes])
         for m in GPU:
@@ -569,16 +653,16 @@ def process(lines, driver_exe, workdir):
             if recs not in c["groups"]:
                 gid = len(c["groups"])
                 c["groups"][recs] = (gid, [m])
-                gpu_functions(h, "g%d_%d" % (c["idx"], gid), st, dd, itnames)
+                gpu_functions(h, "g%d_%d" % (c["idx"], gid), st, dd, itnames, branches)
             else:
                 c["groups"][recs][1].append(m)
         # kept loops
-        want = [canon(header_text(l)) for l in c["loops"]]
+        want = [canon(header_text(l)) for l in allloops]
         c["kept"] = {}
         for m in CPU:
             got = for_headers(c["tr"][m])
             c["kept"][m] = "same" if got == want else "DIFF(" + " / ".join(got) + ")"
-            cpu_function(h, "%s%d" % (m[0], c["idx"]), c["tr"][m], c["kname"], len(itnames))
+            cpu_function(h, "%s%d" % (m[0], c["idx"]), c["tr"][m], c["kname"], width)
         c["has_steps"] = steps_function(h, "p%d" % c["idx"], c["loops"])
     live = [c for c in cases if not c.get("malformed") and not c["any_bad"]]
     if live:
@@ -659,6 +743,11 @@ def process(lines, driver_exe, workdir):
             continue
         if "harness_error" in c:
             out.append("R HARNESS-BUILD-FAILED " + c["harness_error"].replace("\n", " ")[-400:])
+            continue
+        if c["idx"] in h.bad:
+            # the emitted text of this case is not compilable C++ (e.g. an identifier that is no thread index)
+            texts = " ;; ".join("%s{ %s }" % ("+".join(ms), recs) for recs, (gid, ms) in c["groups"].items())
+            out.append("R T %s | V UNCOMPILABLE-EMITTED-SOURCE" % texts)
             continue
         if len(c["groups"]) == 1:
             texts = list(c["groups"].keys())[0]
